@@ -28,6 +28,21 @@ package memberlist
 //@   at exit: assert nothing_stored_for_nothing: newVersion > 0 && sz1 <= 0 ==> newDeleted != get(old(m).store, key).Deleted
 //@   at exit: assert stripped_to_nothing: sz2 == 0 ==> newVersion == 0
 //@
+//@ # the value computed for the store: the first value seen for a key is taken over as received (a copy of it when the
+//@ # caller keeps the original), tombstones included - stripping them here would forget an acknowledged removal on a node
+//@ # that learns of the key through that very message (C04) and stop it from being forwarded (C06); otherwise the incoming
+//@ # value is merged into the stored one, exactly once
+//@ func computeNewValue
+//@   property C04 C06 C07
+//@   nocall memberlist.Mergeable.RemoveTombstones
+//@   ghost var merges int = 0
+//@   ghost var clones int = 0
+//@   at after@memberlist.Mergeable.Merge: merges := merges + 1
+//@   at after@memberlist.Mergeable.Clone: clones := clones + 1
+//@   at before@memberlist.Mergeable.Merge: assert merge_into_stored: same($a0, incoming) && $a1 == cas
+//@   at exit: assert first_value_as_received: oldVal == nil ==> r2 == nil && same(r0, r1) && merges == 0 && (incomingValueRequiresClone ? clones == 1 : (clones == 0 && same(r0, incoming)))
+//@   at exit: assert merged_once: oldVal != nil ==> same(r0, oldVal) && merges == 1 && clones == 0
+//@
 //@ func ValueDesc.Clone
 //@   property C04 C07
 //@   ensures result.Version == v.Version && result.CodecID == v.CodecID && result.Deleted == v.Deleted && (v.value == nil ==> result.value == nil)
